@@ -11,3 +11,6 @@ pub mod timed;
 
 pub use process::{run_process, ProcResult, ProcSpec, Status};
 pub use rt::{Event, Kind, Mode};
+
+/// `thread_local!` with one value per simulated thread (engine tasks share an OS thread)
+pub use shuttle::thread_local;
